@@ -9,7 +9,7 @@ from ..lib import coqrun, driver, env, proofs, report
 
 PROP = "C06"
 PROP_BITS = (1, 2, 3, 4)     # totality / concept-disjointness / per-concept clustering outcome / turchin classes
-COUNTS = {"quick": 420, "thorough": 8000}
+COUNTS = {"quick": 420, "thorough": 5000}
 
 
 def corpus_cases():
